@@ -87,6 +87,8 @@ package auparse
 //@ modifies alloc
 //@ ensures[C05] isNil(result1) ==> result0 != nil
 //@ ensures[C12] len(s) < 4 ==> !isNil(result1)
+//@ spec sockKey(k string) bool := k == "family" || k == "path" || k == "addr" || k == "port" || k == "flow" || k == "saddr"
+//@ ensures[C12] forall k string :: k in result0 ==> sockKey(k)
 //@ ensures[C12] isNil(result1) && sockFamily(s) == 2 ==> len(s) >= 16 && result0["family"] == "ipv4" && result0["port"] == strDec(strIval(s[4:8], 16)) && "addr" in result0
 //@ ensures[C12] isNil(result1) && sockFamily(s) == 10 ==> len(s) >= 48 && result0["family"] == "ipv6" && result0["port"] == strDec(strIval(s[4:8], 16)) && "addr" in result0
 //@ ensures[C12] isNil(result1) && sockFamily(s) == 1 ==> result0["family"] == "unix" && "path" in result0
@@ -100,41 +102,64 @@ package auparse
 //@ ensures[C12] isNil(result1) && sockFamily(s) == 16 ==> result0["family"] == "netlink" && result0["saddr"] == s
 //@ func auparse.normalizeAuditMessage
 //@ modifies alloc
+// hexDecode(key): a value the kernel wrote as upper-case hex is replaced by the
+// decoded bytes with every NUL turned into a space (proctitle, cmd); any other
+// value, every other key and every original token stay as they were.
+//@ spec allHexUp(s string) bool := len(s) % 2 == 0 && (forall j int :: 0 <= j && j < len(s) ==> isHexUp(s[j]))
+//@ spec hexByte(s string, j int) int := 16 * hexVal(s[2 * j]) + hexVal(s[2 * j + 1])
+//@ spec nulToSpace(b int) int := if b == 0 then 32 else b
+//@ spec hexDecoded(v string, orig string, oldv string) bool := (allHexUp(orig) ==> len(v) == len(orig) / 2 && (forall j int :: 0 <= j && j < len(v) ==> v[j] == nulToSpace(hexByte(orig, j)))) && (!allHexUp(orig) ==> v == oldv)
 //@ func (auparse.fieldMap).hexDecode
 //@ requires fm != nil
 //@ modifies mapOf(fm), alloc
+//@ ensures[C12] isNil(result0) == old(key in fm)
+//@ ensures[C12] forall k string :: (k in fm) == old(k in fm) && fm[k].orig == old(fm[k].orig)
+//@ ensures[C12] forall k string :: k != key ==> fm[k].value == old(fm[k].value)
+//@ ensures[C12] old(key in fm) ==> hexDecoded(fm[key].value, old(fm[key].orig), old(fm[key].value))
 //@ func (auparse.fieldMap).execveArgs
 //@ requires fm != nil
 //@ modifies mapOf(fm), alloc
 // EXECVE: argc is a decimal count and every argument a0..a(argc-1) must be present; no key is added or removed.
 //@ ensures[C12] !old("argc" in fm) ==> !isNil(result0)
 //@ ensures[C12] forall k string :: (k in fm) == old(k in fm)
+//@ ensures[C12] forall k string :: fm[k].orig == old(fm[k].orig) && ((len(k) == 0 || k[0] != 'a') ==> fm[k].value == old(fm[k].value))
 //@ ensures[C12] isNil(result0) ==> strIsNum(old(fm["argc"].value), 10, false) && (forall j int :: 0 <= j && j < strUval(old(fm["argc"].value), 10) ==> ("a" ++ strDec(j)) in fm)
 //@ ensures[C12] old("argc" in fm) && strIsNum(old(fm["argc"].value), 10, false) && 0 <= strUval(old(fm["argc"].value), 10) && strUval(old(fm["argc"].value), 10) < 4294967296 && (forall j int :: 0 <= j && j < strUval(old(fm["argc"].value), 10) ==> old(("a" ++ strDec(j)) in fm)) ==> isNil(result0)
 //@ loop 0 invariant[C12] 0 <= i && i <= count && (forall k string :: (k in fm) == old(k in fm)) && (forall j int :: 0 <= j && j < i ==> ("a" ++ strDec(j)) in fm)
+//@ loop 0 invariant[C12] forall k string :: fm[k].orig == old(fm[k].orig) && ((len(k) == 0 || k[0] != 'a') ==> fm[k].value == old(fm[k].value))
 //@ func (auparse.fieldMap).arch
 //@ requires fm != nil
 //@ modifies mapOf(fm), alloc
+//@ ensures[C12] forall k string :: (k in fm) == old(k in fm) && fm[k].orig == old(fm[k].orig) && (k != "arch" ==> fm[k].value == old(fm[k].value))
 //@ ensures[C12] old("arch" in fm) && strIsNum(old(fm["arch"].value), 16, true) && 0 <= strIval(old(fm["arch"].value), 16) && strIval(old(fm["arch"].value), 16) < 4294967296 && strIval(old(fm["arch"].value), 16) in AuditArchNames ==> isNil(result0) && "arch" in fm && fm["arch"].value == AuditArchNames[strIval(old(fm["arch"].value), 16)]
 //@ ensures[C12] !old("arch" in fm) ==> !isNil(result0)
 //@ func (auparse.fieldMap).setSyscallName
 //@ requires fm != nil
 //@ modifies mapOf(fm), alloc
+//@ ensures[C12] forall k string :: (k in fm) == old(k in fm) && fm[k].orig == old(fm[k].orig) && (k != "syscall" ==> fm[k].value == old(fm[k].value))
 //@ spec int64OK(v int) bool := -9223372036854775808 <= v && v <= 9223372036854775807
 //@ ensures[C12] old("syscall" in fm) && old("arch" in fm) && strIsNum(old(fm["syscall"].value), 10, true) && int64OK(strIval(old(fm["syscall"].value), 10)) && old(fm["arch"].value) in AuditSyscalls && strIval(old(fm["syscall"].value), 10) in AuditSyscalls[old(fm["arch"].value)] ==> isNil(result0) && "syscall" in fm && fm["syscall"].value == AuditSyscalls[old(fm["arch"].value)][strIval(old(fm["syscall"].value), 10)]
 //@ ensures[C12] old("syscall" in fm) && old("arch" in fm) && strIsNum(old(fm["syscall"].value), 10, true) && int64OK(strIval(old(fm["syscall"].value), 10)) && !(old(fm["arch"].value) in AuditSyscalls && strIval(old(fm["syscall"].value), 10) in AuditSyscalls[old(fm["arch"].value)]) ==> isNil(result0) && "syscall" in fm && fm["syscall"].value == old(fm["syscall"].value)
 //@ func (auparse.fieldMap).setSignalName
 //@ requires fm != nil
 //@ modifies mapOf(fm), alloc
+//@ ensures[C12] forall k string :: (k in fm) == old(k in fm) && fm[k].orig == old(fm[k].orig) && (k != "sig" ==> fm[k].value == old(fm[k].value))
 //@ func (auparse.fieldMap).saddr
 //@ requires fm != nil
 //@ modifies mapOf(fm), alloc
 //@ ensures[C12] !old("saddr" in fm) ==> !isNil(result0)
+//@ ensures[C12] forall k string :: !sockKey(k) ==> (k in fm) == old(k in fm) && fm[k].orig == old(fm[k].orig) && fm[k].value == old(fm[k].value)
+//@ loop 0 invariant[C12] forall k string :: !sockKey(k) ==> (k in fm) == old(k in fm) && fm[k].orig == old(fm[k].orig) && fm[k].value == old(fm[k].value)
 //@ witness[C12] isNil(result0) ==> forall k string :: k in saddrData ==> k in fm && fm[k].value == saddrData[k]
 //@ loop 0 invariant[C12] forall k string :: visited(k) ==> k in fm && fm[k].value == saddrData[k]
 //@ func (auparse.fieldMap).parseSELinuxContext
 //@ requires fm != nil
 //@ modifies mapOf(fm), alloc
+// only the key itself and its five derived keys are touched
+//@ spec selinuxKey(k string, key string) bool := k == key || k == key ++ "_user" || k == key ++ "_role" || k == key ++ "_domain" || k == key ++ "_level" || k == key ++ "_category"
+//@ ensures[C12] forall k string :: !selinuxKey(k, key) ==> (k in fm) == old(k in fm) && fm[k].orig == old(fm[k].orig) && fm[k].value == old(fm[k].value)
+//@ loop 0 invariant[C12] forall k string :: !selinuxKey(k, key) ==> (k in fm) == old(k in fm) && fm[k].orig == old(fm[k].orig) && fm[k].value == old(fm[k].value)
+//@ loop 0 invariant[C12] len(contextParts) <= 5 && len(keys) == 5 && keys[0] == "_user" && keys[1] == "_role" && keys[2] == "_domain" && keys[3] == "_level" && keys[4] == "_category"
 // Derived-field rules.
 //@ spec isSuccess(v string) bool := toLower(v) == "yes" || toLower(v) == "1" || (len(toLower(v)) >= 3 && toLower(v)[0] == 's' && toLower(v)[1] == 'u' && toLower(v)[2] == 'c')
 //@ func (auparse.fieldMap).result
@@ -149,9 +174,11 @@ package auparse
 //@ ensures[C12] !old("success" in fm) && old("res" in fm) && isSuccess(old(fm["res"].value)) ==> fm["result"].value == "success"
 //@ ensures[C12] !old("success" in fm) && old("res" in fm) && !isSuccess(old(fm["res"].value)) ==> fm["result"].value == "fail"
 //@ ensures[C12] !old("success" in fm) && !old("res" in fm) ==> !isNil(result0)
+//@ ensures[C12] forall k string :: k != "success" && k != "res" && k != "result" ==> (k in fm) == old(k in fm) && fm[k].orig == old(fm[k].orig) && fm[k].value == old(fm[k].value)
 //@ func (auparse.fieldMap).exit
 //@ requires fm != nil
 //@ modifies mapOf(fm), alloc
+//@ ensures[C12] forall k string :: (k in fm) == old(k in fm) && fm[k].orig == old(fm[k].orig) && (k != "exit" ==> fm[k].value == old(fm[k].value))
 //@ ensures[C12] old("exit" in fm) && strIsNum(old(fm["exit"].value), 10, true) && -9223372036854775807 <= strIval(old(fm["exit"].value), 10) && strIval(old(fm["exit"].value), 10) < 0 && (0 - strIval(old(fm["exit"].value), 10)) in AuditErrnoToName ==> fm["exit"].value == AuditErrnoToName[0 - strIval(old(fm["exit"].value), 10)]
 //@ ensures[C12] old("exit" in fm) && strIsNum(old(fm["exit"].value), 10, true) && 0 <= strIval(old(fm["exit"].value), 10) && strIval(old(fm["exit"].value), 10) <= 9223372036854775807 ==> fm["exit"].value == old(fm["exit"].value)
 //@ func (auparse.fieldMap).normalizeUnsetID
@@ -160,9 +187,11 @@ package auparse
 //@ ensures[C12] old(key in fm) && (old(fm[key].value) == "4294967295" || old(fm[key].value) == "-1") ==> fm[key].value == "unset"
 //@ ensures[C12] old(key in fm) && !(old(fm[key].value) == "4294967295" || old(fm[key].value) == "-1") ==> fm[key].value == old(fm[key].value)
 //@ ensures[C12] forall k string :: k != key ==> (k in fm) == old(k in fm) && fm[k].value == old(fm[k].value)
+//@ ensures[C12] forall k string :: (k in fm) == old(k in fm) && fm[k].orig == old(fm[k].orig)
 //@ func (*auparse.AuditMessage).auditRuleKeyNew
 //@ requires data != nil
 //@ modifies m.tags, mapOf(data), alloc
+//@ ensures[C12] forall k string :: k != "key" ==> (k in data) == old(k in data) && data[k].orig == old(data[k].orig) && data[k].value == old(data[k].value)
 
 // Data(): parses once and caches; later calls return the cached pair and write nothing.
 //@ func (*auparse.AuditMessage).Data
@@ -237,4 +266,15 @@ package auparse
 //@ func (*auparse.AuditMessage).enrichData
 //@ requires data != nil
 //@ modifies m.tags, mapOf(data), alloc
+// Every record type: cwd is decoded. Per record type: the fields the kernel may hex-encode are decoded
+// (exe, proctitle, cmd, TTY data, PATH name, acct), whatever else the earlier normalisation steps did.
+//@ ensures[C12] isNil(result0) && old("cwd" in data) ==> "cwd" in data && hexDecoded(data["cwd"].value, old(data["cwd"].orig), old(data["cwd"].value))
+//@ ensures[C12] isNil(result0) && (m.RecordType == AUDIT_SYSCALL || m.RecordType == AUDIT_SECCOMP) && old("exe" in data) ==> "exe" in data && hexDecoded(data["exe"].value, old(data["exe"].orig), old(data["exe"].value))
+//@ ensures[C12] m.RecordType == AUDIT_PROCTITLE && old("proctitle" in data) ==> "proctitle" in data && hexDecoded(data["proctitle"].value, old(data["proctitle"].orig), old(data["proctitle"].value))
+//@ ensures[C12] m.RecordType == AUDIT_USER_CMD && old("cmd" in data) ==> "cmd" in data && hexDecoded(data["cmd"].value, old(data["cmd"].orig), old(data["cmd"].value))
+//@ ensures[C12] (m.RecordType == AUDIT_TTY || m.RecordType == AUDIT_USER_TTY) && old("data" in data) ==> "data" in data && hexDecoded(data["data"].value, old(data["data"].orig), old(data["data"].value))
+//@ ensures[C12] m.RecordType == AUDIT_PATH && old("name" in data) ==> "name" in data && hexDecoded(data["name"].value, old(data["name"].orig), old(data["name"].value))
+//@ ensures[C12] m.RecordType == AUDIT_USER_LOGIN && old("acct" in data) ==> "acct" in data && hexDecoded(data["acct"].value, old(data["acct"].orig), old(data["acct"].value))
+// a SOCKADDR record without an saddr field, or whose address cannot be parsed, is an error (not swallowed)
+//@ ensures[C12] m.RecordType == AUDIT_SOCKADDR && !old("saddr" in data) ==> !isNil(result0)
 //@ ensures[C12] m.RecordType == AUDIT_PROCTITLE || m.RecordType == AUDIT_USER_CMD || m.RecordType == AUDIT_TTY || m.RecordType == AUDIT_USER_TTY || m.RecordType == AUDIT_PATH || m.RecordType == AUDIT_USER_LOGIN || m.RecordType == AUDIT_CWD ==> isNil(result0)
